@@ -1,0 +1,12 @@
+//go:build verif
+
+package sqlparser
+
+import querypb "github.com/cossacklabs/acra/sqlparser/dependency/querypb"
+
+// VerifRedactInPlace runs on stmt the literal-replacing walk that HandleRawSQLQuery and RedactSQLQuery run
+// on their parse tree (verification harness only; the harness checks String(stmt) afterwards against the
+// redacted text HandleRawSQLQuery returns for the same statement).
+func VerifRedactInPlace(stmt Statement) {
+	Redact(stmt, map[string]*querypb.BindVariable{}, ValueMask)
+}
